@@ -24,7 +24,10 @@ UnitGraphs == {<<"self", {Slot("u2ref", "u2")}>>, <<"two", {Slot("u2ref", "u3"),
                <<"dupname", {Slot("u3name", "u2")}>>}
 UnitUsers == {<<"nobody", {}>>, <<"variable", {Slot("v1units", "u2")}>>, <<"connection", {Slot("v1units", "u2"), Slot("wunits", "u3")}>>, <<"cn", {Slot("cnunits", "u2")}>>,
               <<"both", {Slot("v1units", "u2"), Slot("wunits", "u2"), Slot("cnunits", "u2")}>>}
+\* a units reached along 2^n paths (each units names the next one in two children): small, valid, acyclic
+Doubling(n) == {Slot("moreunits", "{DOUBLING:" \o ToString(n) \o "}"), Slot("u2ref", "k1"), Slot("v1units", "u2")}
 UnitFeatures == {Feature("units", <<g[1], u[1]>>, g[2] \cup u[2]) : g \in UnitGraphs, u \in UnitUsers}
+                \cup {Feature("units", <<"doubling12", "variable">>, Doubling(12)), Feature("units", <<"doubling40", "variable">>, Doubling(40))}
 
 \* ---------------------------------------------------------------- MathML
 Snippets == {"<apply><min/></apply>", "<apply><max/></apply>", "<piecewise/>", "<apply/>", "<apply><eq/></apply>", "<apply><plus/></apply>", "<apply><minus/></apply>", "<apply><times/></apply>",
@@ -36,7 +39,9 @@ Snippets == {"<apply><min/></apply>", "<apply><max/></apply>", "<piecewise/>", "
              "<ci/>", "<ci></ci>", "<ci>nosuch</ci>", "<ci> v1 </ci>", "<ci>v1<ci>v2</ci></ci>", "<cn/>", "<cn cellml:units='u1'/>", "<cn cellml:units='u1'>.</cn>", "<cn>1</cn>", "<cn cellml:units='nosuch'>1</cn>",
              "<cn cellml:units='u1' type='e-notation'>1</cn>", "<cn cellml:units='u1' type='e-notation'><sep/></cn>", "<cn cellml:units='u1' type='e-notation'>1<sep/></cn>",
              "<cn cellml:units='u1' type='e-notation'><sep/>1</cn>", "<cn cellml:units='u1' type='e-notation'>1<sep/>2<sep/>3</cn>", "<cn cellml:units='u1' type='rational'>1<sep/>2</cn>",
-             "<cn cellml:units='u1' type='nosuch'>1</cn>", "<cn cellml:units='u1'>1<ci>v1</ci></cn>",
+             "<cn cellml:units='u1' type='nosuch'>1</cn>",
+             "<cn xmlns:a='http://www.cellml.org/cellml/2.0#' xmlns:b='http://www.cellml.org/cellml/2.0#' a:units='u1'>1</cn>",
+             "<apply xmlns:c1='http://www.cellml.org/cellml/2.0#' xmlns:c2='http://www.cellml.org/cellml/2.0#'><plus/><ci>v1</ci><cn c2:units='u1'>1</cn></apply>", "<cn cellml:units='u1'>1<ci>v1</ci></cn>",
              "<piecewise><piece/></piecewise>", "<piecewise><piece><ci>v1</ci></piece></piecewise>", "<piecewise><otherwise/></piecewise>", "<piecewise><otherwise><ci>v1</ci></otherwise></piecewise>",
              "<piecewise><piece><ci>v1</ci><ci>v1</ci><ci>v1</ci></piece></piecewise>", "<piecewise><otherwise><ci>v1</ci></otherwise><otherwise><ci>v1</ci></otherwise></piecewise>",
              "<piecewise><piece><ci>v1</ci><true/></piece><piece><ci>v1</ci><false/></piece></piecewise>",
@@ -49,6 +54,7 @@ Snippets == {"<apply><min/></apply>", "<apply><max/></apply>", "<piecewise/>", "
              "text", "<apply><plus/>text<ci>v1</ci></apply>", "<!-- c -->", "<apply><plus/><!-- c --><ci>v1</ci><ci>v1</ci></apply>", "<![CDATA[<ci>v1</ci>]]>",
              "{NEST:<apply><plus/><ci>v1</ci>:</apply>:200}", "{NEST:<apply><plus/><ci>v1</ci>:</apply>:3000}", "{NEST:<apply><minus/>:</apply>:300}",
              "{NEST:<piecewise><piece><ci>v1</ci><true/></piece><otherwise>:</otherwise></piecewise>:150}", "<apply><plus/>{REP:<ci>v1</ci>:2000}</apply>",
+             "<ci>v1{REP: :30000}</ci>", "<apply><plus/>{REP: :30000}<ci>v1</ci><ci>v1</ci></apply>",        \* long runs of whitespace (the document stays under 64 KiB)
              "<apply><power/><ci>v1</ci><cn cellml:units='dimensionless'>1e999</cn></apply>", "<apply><root/><degree><cn cellml:units='dimensionless'>0</cn></degree><ci>v1</ci></apply>",
              "<apply><divide/><ci>v1</ci><cn cellml:units='dimensionless'>0</cn></apply>", "<apply><log/><logbase><cn cellml:units='dimensionless'>0</cn></logbase><ci>v1</ci></apply>",
              "<apply><power/><ci>v1</ci><ci>v1</ci></apply>", "<apply><power/><apply><power/><ci>v1</ci><ci>v1</ci></apply><ci>v1</ci></apply>",
@@ -57,6 +63,13 @@ Places == {"rhs", "lhs", "whole", "arg", "testvalue", "bare"}
 MathFeatures == {Feature("math", <<p, s>>, {Slot("mathplace", p), Slot("snippet", s)} \cup (IF p = "testvalue" THEN {Slot("reset", "yes")} ELSE {})) : p \in Places, s \in Snippets}
                 \cup {Feature("math", <<"mathns", v>>, {Slot("mathns", v)}) : v \in {"", "http://www.w3.org/1998/Math/MathML2", "http://www.cellml.org/cellml/2.0#"}}
                 \cup {Feature("math", <<"mathroot", v>>, {Slot("mathroot", v)}) : v \in {"apply", "Math", "mml:math"}}
+                \* namespace declarations on the math element: the CellML namespace bound to two or three prefixes, next to each other and apart
+                \cup {Feature("math", <<"mathattrs", v>>, {Slot("mathattrs", v), Slot("mathplace", "rhs"), Slot("snippet", sn)}) :
+                        v \in {"xmlns:cellml='http://www.cellml.org/cellml/2.0#' xmlns:cml='http://www.cellml.org/cellml/2.0#'",
+                               "xmlns:a='http://www.cellml.org/cellml/2.0#' xmlns:b='http://www.cellml.org/cellml/2.0#' xmlns:c='http://www.cellml.org/cellml/2.0#'",
+                               "xmlns:a='http://www.cellml.org/cellml/2.0#' xmlns:x='urn:x' xmlns:b='http://www.cellml.org/cellml/2.0#'",
+                               "xmlns:a='http://www.cellml.org/cellml/1.1#' xmlns:b='http://www.cellml.org/cellml/1.1#'", "xmlns:x='urn:x' xmlns:y='urn:x'"},
+                        sn \in {"<cn cellml:units='u1'>1</cn>", "<ci>v1</ci>"}}
 
 \* ---------------------------------------------------------------- structure
 StructFeatures ==
